@@ -117,6 +117,7 @@ def _run_once(module, cfg_text, ctx, *, workers=16, simulate=None, depth=None, s
     with open(cfg, 'w') as f:
         f.write(cfg_text)
     cmd = ['java', '-XX:+UseParallelGC', '-Xmx12g', '-Xss256m']   # deep recursive operators: the default 1 MB stack overflowed once under load
+    cmd.append(f'-Djava.io.tmpdir={meta}')        # TLC unpacks its standard modules into a fresh tlc-* directory per run: keep them in the scratch space
     if deque:
         cmd.append('-Dtlc2.tool.queue.IStateQueue=StateDeque')
     cmd += ['-cp', JAR, 'tlc2.TLC', '-workers', str(workers), '-metadir', os.path.join(meta, 'states'),
